@@ -176,6 +176,19 @@ def run(ctx, model):
         _args(ctx, model, cname, f, [({"__pos": [5]}, T_EXC), ({"__pos": [["ab", 5]]}, T_EXC), ({"__pos": [[None]]}, T_EXC)])
     ctx.floor("R-WORD-SKELETON", ctx.rule_counts.get("R-WORD-SKELETON", 0), 60, "word skeleton evaluations")
 
+    # ---------------- R-E2E: the text emitted by the real core builders denotes the composed term
+    from . import e2e
+    cfgs = [("Numeral", [b, lo, hi], {"is_extensible": ext}) for b, lo, hi, ext in ((2, 1, None, False), (10, 2, 4, False), (16, 1, 4, False), (16, 2, None, True), (7, 0, 3, False), (11, 12, 12, False))] + \
+           [("Word", [lo, hi, g, ext]) for lo, hi, g, ext in ((1, None, True, False), (2, 5, False, False), (3, 3, True, True), (10, 12, False, False))] + \
+           [(cn, [aff, g, ext]) for cn in ("WordContains", "WordStartsWith", "WordEndsWith")
+            for aff, g, ext in ((["ab", "c.d"], True, False), ("solo", False, False), (["x\\b"], True, False), (["\\B", "$", "^a"], False, False),
+                                (["x", "(y", "z|"], True, True), (["\\w", "a|b", "[c]"], True, False))]
+    if ctx.tier == "thorough":
+        cfgs += [("Numeral", [b]) for b in range(2, 17)] + [("Word", [1, 70])]
+    ctx.parallel(cfgs, lambda c, cfg: e2e.compare(c, model, "R-E2E", *cfg), min_items=2)
+    ctx.floor("R-E2E", ctx.rule_counts.get("R-E2E", 0), len(cfgs), "end-to-end comparisons")
+
+
 
 def _is_word_class(t):
     return isinstance(t, Cls) and not t.negated and set(t.chars) == set(WORD)
